@@ -610,25 +610,56 @@ func C36(c *Ctx) {
 		}
 	}
 	if fn := c.Fn("lsm", "LSM.recovery"); fn != nil {
-		for i, s := range need(c, r2, fn, false, "RemoveSegment", rm, 1) {
-			in := s.(ssa.Instruction)
-			raftOK, _ := guardedByCall(fn, in, canRm, true)
-			// fid <= seg where seg is logPointer() result
-			lsmOK := false
-			lp := Calls(fn, false, Named("lsm.(*levelManager).logPointer"))
-			for _, b := range fn.Blocks {
-				ifi := ifOf(b)
-				if ifi == nil {
-					continue
-				}
-				if bo, ok := ifi.Cond.(*ssa.BinOp); ok && bo.Op == token.LEQ && EdgeDominates(b, b.Succs[0], in.Block()) {
-					if len(lp) > 0 && derivedFrom(bo.Y, valuesOf(lp), 4) {
-						lsmOK = true
+		// the removal may live in a helper of recovery that receives the log pointer; decided by
+		// order-sign evaluation over (fid vs manifest log pointer) × (canRemoveWalSegment answer)
+		isRm := func(ci ssa.CallInstruction) bool { return rm(ci.Common()) }
+		sites := effectSites(c, fn, isRm, 1)
+		c.Decide(len(sites) >= 1, r2, key(fn, "has:RemoveSegment"), fn.Pos(), len(sites)+1, fmt.Sprintf("%d removal site(s)", len(sites)), "expected at least 1 call(s) to RemoveSegment in (*lsm.LSM).recovery, found 0")
+		lp := Calls(fn, false, Named("lsm.(*levelManager).logPointer"))
+		n := 0
+		for _, site := range sites {
+			g := fn
+			segVals := func(v ssa.Value) bool { return len(lp) > 0 && derivedFrom(v, valuesOf(lp), 4) }
+			if !isRm(site) {
+				g = StaticFn(site.Common())
+				params := map[ssa.Value]bool{}
+				for i, a := range site.Common().Args {
+					if i < len(g.Params) && len(lp) > 0 && derivedFrom(a, valuesOf(lp), 4) {
+						params[g.Params[i]] = true
 					}
 				}
+				segVals = func(v ssa.Value) bool { return params[v] }
 			}
-			c.Decide(lsmOK, r2, key(fn, fmt.Sprintf("RemoveSegment[%d]#G-lsm", i+1)), s.Pos(), 2, "only segments at or below the manifest log pointer", "recovery removes a segment not known to be at or below the manifest log pointer")
-			c.Decide(raftOK, r2, key(fn, fmt.Sprintf("RemoveSegment[%d]#G-raft", i+1)), s.Pos(), 2, "raft guard present", "recovery removes a segment without canRemoveWalSegment")
+			for _, s := range Calls(g, false, rm) {
+				n++
+				in := s.(ssa.Instruction)
+				idArg := s.Common().Args[len(s.Common().Args)-1]
+				role := func(v ssa.Value) string {
+					v = Unwrap(v)
+					if v == Unwrap(idArg) {
+						return "fid"
+					}
+					if segVals(v) {
+						return "seg"
+					}
+					return ""
+				}
+				reach := func(cmp int, can Tri) bool {
+					signs := map[string]int{}
+					SetSign(signs, "fid", "seg", cmp)
+					env := &SignEnv{Role: role, Signs: signs, Depth: 1, Bool: func(v ssa.Value) Tri {
+						if call, ok := v.(*ssa.Call); ok && canRm(call.Common()) {
+							return can
+						}
+						return Unknown
+					}}
+					return env.Reaches(g, in)
+				}
+				lsmOK := !reach(1, True) && reach(0, True) && reach(-1, True)
+				raftOK := !reach(0, False) && !reach(-1, False)
+				c.Decide(lsmOK, r2, key(fn, fmt.Sprintf("RemoveSegment[%d]#G-lsm", n)), s.Pos(), 3, "only segments at or below the manifest log pointer", "recovery removes a segment not known to be at or below the manifest log pointer")
+				c.Decide(raftOK, r2, key(fn, fmt.Sprintf("RemoveSegment[%d]#G-raft", n)), s.Pos(), 2, "raft guard present", "recovery removes a segment without canRemoveWalSegment")
+			}
 		}
 	}
 	if fn := c.Fn("wal", "Watchdog.observe"); fn != nil {
